@@ -366,8 +366,9 @@ def run_case(ctx, case):
                         ctx.violation('chunking', 'responses differ between recv chunkings %s and %s for stream %s'
                                       % (modes[0], m, kinds), {'kinds': kinds})
                 if len(ctx.samples) < 6 and nbad and rng.random() < 0.15:
-                    ctx.sample({'stream': kinds, 'decodable': dec, 'responses': [
-                        (rig.Result(b'').brief() if False else None)], 'frame0_hex': frames[0].hex()[:160]})
+                    ctx.sample({'stream': kinds, 'decodable': dec, 'structurally_incomplete': incomplete,
+                                'responses_first_chunking': [str(x)[:80] for x in results[list(results)[0]]],
+                                'frame0_hex': frames[0].hex()[:160]})
             # maximum response size sweep
             for _ in range(12):
                 version = rng.choice(rig.VERSIONS)
